@@ -2,7 +2,8 @@ import datetime
 import math
 
 DAYS_PER_MONTH = [31, 28, 31, 30, 31, 30, 31, 31, 30, 31, 30, 31]
-DAYS_EPOCH = 25569
+DAYS_1900 = 2
+MILLIS_PER_DAY = 24 * 60 * 60 * 1000
 
 
 def is_leap_year(year):
@@ -34,24 +35,28 @@ def to_oa_date(date):
 
 
 def to_date(oadate):
-    value = oadate - DAYS_EPOCH
-    year = 1970
-    while value > year_days(year):
+    days = math.floor(oadate)
+    millis = round((oadate - days) * MILLIS_PER_DAY)
+    if millis >= MILLIS_PER_DAY:
+        days += 1
+        millis -= MILLIS_PER_DAY
+    value = days - DAYS_1900
+    year = 1900
+    while value >= year_days(year):
         value -= year_days(year)
         year += 1
     month = 0
     while value >= month_days(year, month):
         value -= month_days(year, month)
         month += 1
-    day = math.trunc(value) + 1
-    value = value - math.trunc(value)
-    hours = math.trunc(value * 24)
-    value = value * 24 - hours
-    minutes = math.trunc(value * 60)
-    value = value * 60 - minutes
-    seconds = math.trunc(value * 60)
-    value = value * 60 - seconds
-    microseconds = math.trunc(value * 1000 * 1000)
+    day = value + 1
+    hours = millis // 3600000
+    millis = millis - hours * 3600000
+    minutes = millis // 60000
+    millis = millis - minutes * 60000
+    seconds = millis // 1000
+    millis = millis - seconds * 1000
+    microseconds = millis * 1000
     result = datetime.datetime.fromtimestamp(0)
     return result.replace(
         year=year,
